@@ -224,6 +224,18 @@ Theorem C06_k_moving_on_quaternion : forall (k w : R) (a b : quat), (w <> 0)%R -
 Proof. exact manifold_reduction_quat. Qed.
 Print Assumptions C06_k_moving_on_quaternion.
 
+(* the order of updates inside one step: centres -> force constant (TI accumulation with dU/dk at the CURRENT values and the
+   updated centres) -> energy and forces at the CURRENT values with the updated parameters -> accumulated work *)
+Theorem C06_update_order : forall T (O : NumOps T) (c : rcfg) (s : rstate) (t rel : Z) (cont : bool) (xs : list T),
+  let s1 := centers_update O c s t rel cont in
+  let s2 := fst (k_update O c s1 t rel cont xs) in
+  o_energy (snd (rstep O c s t rel cont xs)) = sumT O (map (@pot3 T) (terms O c s2 xs)) /\
+  o_forces (snd (rstep O c s t rel cont xs)) = map (@frc3 T) (terms O c s2 xs) /\
+  o_log (snd (rstep O c s t rel cont xs)) = snd (k_update O c s1 t rel cont xs) /\
+  fst (rstep O c s t rel cont xs) = work_k O c (work_centers O c s2 t rel (map (@frc3 T) (terms O c s2 xs))) rel xs.
+Proof. exact @rstep_order. Qed.
+Print Assumptions C06_update_order.
+
 (* ---- accumulated work (R instance) ------------------------------------------------------------- *)
 (* steps_of c evs = the steps of the history with their values, each step once (run boundaries and restarts
    compute a step again and add nothing).  W = sum over the steps s of dU/dk(x_s) (k(s) - k(s-1)), k the schedule. *)
